@@ -198,7 +198,7 @@ def tick_entry(prog, ms_list=None, es_list=None):
                     st.objs[oid] = o.copy()
             a = st.objs[M.oid]
             a.cells[((), M.field_off('current_state'))] = (1, C(ms))
-            lt = ('sym', 'last_ts@entry', 1, 1 << 62)
+            lt = ('sym', 'last_ts@entry', 0, 1 << 62)
             a.cells[((), M.field_off('last_ts'))] = (8, lt)
             st.tags['clkfloor.s'] = (lt,)
             e = st.objs[Eu.oid]
